@@ -28,6 +28,7 @@ import YtkProofs.GapPointer
 import YtkProofs.ValidB
 import YtkProofs.FuncsPtr
 import YtkProofs.FuncsDomRead
+import YtkProofs.FuncsDomChild
 
 namespace Ytk.C02
 
@@ -317,6 +318,30 @@ theorem nonvacuous_read_generated :
     FuncsDom.containerLookup [("a", .cont [("b", .list [.leaf ⟨"int", "7"⟩])])] "a.b[0]" = .ok (some (.leaf ⟨"int", "7"⟩)) ∧
     FuncsDom.containerLookup [("a", .leaf ⟨"int", "7"⟩)] "a.b" = .ok none ∧
     FuncsDom.containerSearch [("a", .leaf ⟨"int", "1"⟩), ("b", .leaf ⟨"int", "2"⟩)] (fun v => .ok (v == ⟨"int", "2"⟩)) = .ok ["b"] := by
+  decide +kernel
+
+end Ytk.C02
+
+/-! ## xlate7d: `(*containerImpl).Child` — the index-suffix handling -/
+namespace Ytk.C02
+open Ytk.Generated
+
+/-- Container.Child(name), as translated (the regexp `\[\d+]$`, `FindStringIndex`, `strconv.Atoi`, the RECURSION on the
+    name without its last group, `n.(List)`, the bounds test): the model's `child` (which strips all groups first and
+    then descends), for every container and every name whose index groups are below 2^63 (`strconv.Atoi` saturates
+    at the int64 bound; a list with 2^63 items does not exist) -/
+theorem Child_generated_eq_model (c : AMap Node) (name : String)
+    (hf : ∀ i ∈ (parseSeg name).2, i < 9223372036854775808) :
+    FuncsDom.containerChild c name = .ok (child c name) :=
+  FuncsDomChild.containerChild_generated_eq_model c name hf
+
+/-- the translated code RUN: nested groups, an index out of bounds, a group on a non-list, a plain key, a missing key -/
+theorem nonvacuous_Child_generated :
+    FuncsDom.containerChild [("a", .list [.leaf ⟨"int", "1"⟩, .list [.leaf ⟨"int", "7"⟩]])] "a[1][0]" = .ok (some (.leaf ⟨"int", "7"⟩)) ∧
+    FuncsDom.containerChild [("a", .list [.leaf ⟨"int", "1"⟩])] "a[1]" = .ok none ∧
+    FuncsDom.containerChild [("a", .leaf ⟨"int", "1"⟩)] "a[0]" = .ok none ∧
+    FuncsDom.containerChild [("a", .leaf ⟨"int", "1"⟩)] "a" = .ok (some (.leaf ⟨"int", "1"⟩)) ∧
+    FuncsDom.containerChild [("a", .leaf ⟨"int", "1"⟩)] "b" = .ok none := by
   decide +kernel
 
 end Ytk.C02
